@@ -9,6 +9,9 @@ and are rebuilt from it through the registry; and every accepted change of the a
 or of the cell (made by the user move itself or by a shipped exchange / cell move next to
 it) is followed by an on_atoms_changed / on_cell_changed notification to every member of
 the move table, with index lists that match what really changed.
+Criteria hand back varied truthy / falsy values (True, 1, numpy.True_ / False, 0,
+numpy.False_, None); grand-canonical simulations also carry a shipped plain composite
+that deletes a two-atom particle and inserts a one-atom one in the same trial.
 """
 from __future__ import annotations
 
